@@ -18,7 +18,7 @@ func init() {
 		Level: "exploration",
 		Cases: func(tier string) int { return tierN(tier, 3000, 24000) },
 		Run:   runC07,
-		Rule: "case = one history from the C01 (plain), C04 (GC cycles, with and without preceding flush, time-limited) or C02 (Close/reopen through snapshot and rescan) generators, by case index mod 3; after every completed Flush, after every Close and at the end the independent fsck reader evaluates the C07 invariant on the authoritative bucket table (live table while open, snapshot after Close); only fsck problems are verdicts here; " +
+		Rule: "case = one history from the C01 (plain), C04 (GC cycles, with and without preceding flush, time-limited) or C02 (Close/reopen through snapshot and rescan) generators, by case index mod 3 (plus, case index mod 16 == 7, an index-GC churn history: 40-90 rounds of 1-3 writes + Flush on 60-300 byte index files with an index GC cycle every second or third round); after every completed Flush, after every Close and at the end the independent fsck reader evaluates the C07 invariant on the authoritative bucket table (live table while open, snapshot after Close); only fsck problems are verdicts here, among them that the table a rescan of the index log would build resolves to the same record lists as the live table (the files alone determine the state); " +
 			"non-trivial iff >=3 quiescent states were examined AND >=2 keys shared a bucket AND a file rolled over; distinct = hash of (configuration, digests, operations). Crash slice (case index mod 16 == 15): a C03-style history is imaged at every hook point (torn variants included, except torn primary appends = trigger class of known finding C03-F1); fsck is evaluated on each image with the bucket table a rescan would build (log replay - no snapshot exists after a crash); each image is then recovered by OpenStore, used further (puts, flushes, GC cycles) with imaging still on, and fsck is evaluated again on every image of the continuation and on the closed store. Post-concurrency states are examined by C05/C06 with the same fsck.",
 		Assumptions: []string{
 			"fsck (internal/fsck) shares no parsing code with /repo; formats as in DESIGN.md Appendix A",
@@ -39,6 +39,33 @@ func runC07(c run.Ctx) *core.CaseResult {
 	}
 	if c.Index%16 == 15 {
 		return runC07Crash(c)
+	}
+	if c.Index%16 == 7 {
+		// index-GC churn: few small record lists per index file, superseded one after the other over many
+		// flushes with an index GC cycle every second or third flush, so that free spans grow record by
+		// record across cycles (merge of a newly freed list with lists freed by earlier cycles)
+		r := gen.Rng(c.Seed, propStream("C07churn"), uint64(c.Index))
+		cfg := gen.Config{Primary: gen.MH, Bits: 8, IndexFileSize: []uint32{60, 100, 150, 300}[r.IntN(4)], PrimaryFileSize: []uint32{300, 4096}[r.IntN(2)], FileCache: []int{0, 2, 512}[r.IntN(3)]}
+		u := gen.MakeUniverse(r, cfg.Primary, 8+r.IntN(20))
+		var ops []seq.Op
+		var vid uint64 = 1
+		rounds := 40 + r.IntN(50)
+		for i := 0; i < rounds; i++ {
+			for j := 0; j < 1+r.IntN(3); j++ {
+				if r.IntN(8) == 0 {
+					ops = append(ops, seq.Op{Kind: "rm", K: r.IntN(len(u.Keys))})
+				} else {
+					ops = append(ops, seq.Op{Kind: "put", K: r.IntN(len(u.Keys)), VID: vid, VLen: 1 + r.IntN(30)})
+					vid++
+				}
+			}
+			ops = append(ops, seq.Op{Kind: "flush"})
+			if i%2 == 1 || r.IntN(3) == 0 {
+				ops = append(ops, seq.Op{Kind: "gci", A: r.IntN(2)}, seq.Op{Kind: "flush"})
+			}
+		}
+		ops = append(ops, seq.Op{Kind: "reopen", A: 1, B: 1})
+		return runSeq(c, seqCase{cfg, u, ops}, seq.Opts{FsckAtFlush: true, OnlyFsck: true, FinalReopen: true}, nt)
 	}
 	switch c.Index % 3 {
 	case 0:
